@@ -132,6 +132,9 @@ def main(tier, seed, args):
     configs.append(('lock discipline[restart, 1 rpc fault]', cfg, pc, [LockDiscipline(), Coverage(['fault', 'timer'])], {}))
     cfg, pc = cfg_concrete([1006000], faults=1, fault_methods=allm, fault_codes=((-1, 'Rpc'), (None, 'General')))
     configs.append(('lock discipline[fresh, 1 rpc fault]', cfg, pc, [LockDiscipline(), Coverage(['fault'])], {}))
+    # the block watcher's periodic height poll in flight (its getinfo answered late or never) while a payment runs
+    cfg, pc = cfg_concrete([1006000], height_polls=1)
+    configs.append(('lock discipline[height poll in flight]', cfg, pc, [LockDiscipline(), Coverage(['pay'])], {}))
     scen_common.run_configs(rep, PID, c, configs, budget)
     if not rep.violations:
         from .c20 import run_explorer
